@@ -117,7 +117,12 @@ def build(d: Path, scn, out_name="out.nc", record_output=True, record_ibm=False,
     stop = start + scen.S(sgn * nsteps * DT)
     f = scn["forcing"]
     fsteps = np.concatenate([[-tm["pre"]], -tm["pre"] + np.cumsum(f["gaps"])])
-    ftimes = [start + scen.S(sgn * int(s) * DT) for s in fsteps]
+    # optional per-frame offsets (seconds, 0 <= off < DT) in simulation direction: frames between model steps
+    offs = f.get("offgrid") or []
+    offs = [int(offs[k % len(offs)]) if offs else 0 for k in range(len(fsteps))]
+    if tm["pre"] == 0:
+        offs[0] = 0  # the first frame must not be later than the start
+    ftimes = [start + scen.S(sgn * (int(s) * DT + o)) for s, o in zip(fsteps, offs)]
     nfr = len(ftimes)
     U, V = scen.vel_arrays(G, nfr, f["vel"], seed=f["vel"]["seed"])
     U, V = vel_sign * U, vel_sign * V
@@ -136,6 +141,12 @@ def build(d: Path, scn, out_name="out.nc", record_output=True, record_ibm=False,
     if not cells:
         raise ValueError("no sea cell")
     rel = scn["release"]
+    if rel.get("near_land"):
+        # release next to land (within two cells of a land cell), so that moves onto land are frequent
+        Mk = G["mask"]
+        near = [(i, j) for (i, j) in cells
+                if (Mk[max(0, j - 2):j + 3, max(0, i - 2):i + 3] < 1).any()]
+        cells = near or cells
     rows = []
     cols = ["release_time", "X", "Y", "Z", "mult", "tag"]
     pv = scn["pvars"]
